@@ -5,7 +5,7 @@
 //! and read-only introspection. With the cfg flag absent this file is not part
 //! of the build at all.
 
-use std::sync::atomic::{AtomicBool, AtomicU64, Ordering};
+use std::sync::atomic::{AtomicBool, Ordering};
 use std::sync::Arc;
 
 use crate::clock::LogicalClock;
@@ -31,32 +31,30 @@ pub(crate) fn manual_background() -> bool {
 
 // ===== H9: deterministic skiplist heights =====
 
-static HEIGHT_SEEDED: AtomicBool = AtomicBool::new(false);
-static HEIGHT_STATE: AtomicU64 = AtomicU64::new(0);
+thread_local! {
+	static HEIGHT_STATE: std::cell::Cell<Option<u64>> = const { std::cell::Cell::new(None) };
+}
 
-/// Installs a process-wide deterministic generator for skiplist tower heights
-/// (`None` restores the thread RNG).
+/// Installs, for the calling thread, a deterministic generator for skiplist
+/// tower heights (`None` restores the thread RNG). Thread-local so that
+/// parallel harness workers do not perturb each other.
 pub fn set_height_seed(seed: Option<u64>) {
-	match seed {
-		Some(s) => {
-			HEIGHT_STATE.store(s | 1, Ordering::SeqCst);
-			HEIGHT_SEEDED.store(true, Ordering::SeqCst);
-		}
-		None => HEIGHT_SEEDED.store(false, Ordering::SeqCst),
-	}
+	HEIGHT_STATE.with(|s| s.set(seed.map(|v| v | 1)));
 }
 
 #[inline]
 pub(crate) fn height_rnd() -> Option<u32> {
-	if !HEIGHT_SEEDED.load(Ordering::Relaxed) {
-		return None;
-	}
-	// splitmix64 step on a shared counter
-	let mut z = HEIGHT_STATE.fetch_add(0x9E37_79B9_7F4A_7C15, Ordering::Relaxed);
-	z = (z ^ (z >> 30)).wrapping_mul(0xBF58_476D_1CE4_E5B9);
-	z = (z ^ (z >> 27)).wrapping_mul(0x94D0_49BB_1331_11EB);
-	z ^= z >> 31;
-	Some((z >> 32) as u32)
+	HEIGHT_STATE.with(|s| {
+		let cur = s.get()?;
+		// splitmix64 step
+		let next = cur.wrapping_add(0x9E37_79B9_7F4A_7C15);
+		s.set(Some(next));
+		let mut z = next;
+		z = (z ^ (z >> 30)).wrapping_mul(0xBF58_476D_1CE4_E5B9);
+		z = (z ^ (z >> 27)).wrapping_mul(0x94D0_49BB_1331_11EB);
+		z ^= z >> 31;
+		Some((z >> 32) as u32)
+	})
 }
 
 // ===== H8: clock =====
